@@ -36,7 +36,7 @@ CLAIMED = {
     'C13': dict(assumptions=[GAP, 'that each replayed/performed append calls add_value exactly once (handlers) and the fold/next executor are not covered',
                              'RecursiveStreamCursor is covered only by the bounded native job']),
     'C14': dict(assumptions=[GAP, 'Ed25519, borsh and CidInfo::verify internals are trusted; the attack catalogue over histories is not covered']),
-    'C15': dict(assumptions=[GAP, 'to_count_map (HashMap entry API) is outside Verus: assumed to return the multiset of its argument, checked by the bounded native job C15.count_map']),
+    'C15': dict(assumptions=[GAP, 'to_count_map (HashMap entry API) is outside Verus: assumed to return the multiset of its argument, checked by the bounded native job C15.merge, which also covers DataVerifier::merge (swap logic, Entry API) that Verus cannot take']),
     'C18': dict(assumptions=[GAP, 'behaviour inside par/fold/new is not covered']),
     'C19': dict(assumptions=[GAP, 'quiescence of finished histories is not covered; dedup is a bounded native check']),
     'C21': dict(assumptions=['Ord for semver::Version is axiomatised as a strict total order; conformance of that axiom is a native check of a trusted dependency']),
